@@ -1373,7 +1373,7 @@ const char* rtosc_skip_next_printed_arg(const char* src, int* skipped,
                 rtosc_arg_val_t llhsarg, lhsarg, rhsarg;
                 char lhstype = deltaless_range_type ? deltaless_range_type
                                                     : *type,
-                     llhstype, rhstype[2] = "x";
+                     llhstype = 0, rhstype[2] = "x";
 
                 *type = '-'; // TODO: bug? return scanned type instead,
                              //       to avoid [0.1 1 ...5]
